@@ -28,6 +28,7 @@ func c03(c *Ctx) {
 		"(fixedlen) fixed-size encodings are length-checked by equality before use: Ed25519 against ed25519.SignatureSize, IEEE-P1363 against the size of the key's own curve, whose table (folded by constant propagation) is 64/96/132 for P-256/384/521; " +
 		"(legacy) the 0x00 message suffix is applied under exactly the condition variant==VariantLegacy (key types) / OutputPrefixType==LEGACY (keyset adapters), and both the producing and the accepting side of every such package reach a suffix site; " +
 		"(derstrict) the ASN.1 decoder re-encodes and compares; " +
+		"(bitbytes) a bit count (ModulusSizeBits(), BitLen(), BitSize, …) is turned into a byte count only by rounding up, (bits+7)/8: a floor division makes every size that is not a multiple of 8 one byte short (RSA moduli of 2049..2055 bits are legal keys); " +
 		"(saltbinding) the PSS salt length given to the stdlib is the configured one and cannot be a value the stdlib interprets as 'auto'. " +
 		"Not decided: equality with an independent verifier on all inputs; RSA/ECDSA arithmetic (stdlib)."
 	ac := newAcceptCtx(c)
@@ -39,6 +40,7 @@ func c03(c *Ctx) {
 	legacySuffixRule(c, "C03", []string{"signature/ecdsa", "signature/ed25519", "signature/rsassapkcs1", "signature/rsassapss", "signature"}, map[string]bool{"Sign": true, "Verify": true})
 	c03DERStrict(c)
 	c03SaltBinding(c)
+	c03BitBytes(c)
 	r.Assume("stdlib verification calls (ecdsa.VerifyASN1, ed25519.Verify, rsa.VerifyPKCS1v15, rsa.VerifyPSS) accept exactly the valid signatures of their standard")
 }
 
@@ -944,4 +946,78 @@ func c03SaltProvenance(p *core.Program, m *ssa.Function) (bool, string) {
 		}
 	})
 	return good && n > 0, fmt.Sprintf("the options of %d SignPSS/VerifyPSS call(s) carry the constructor's saltLength parameter (followed through fields set only in constructor literals and through helpers)", n)
+}
+
+// c03BitBytes: a quantity counted in bits — the result of a method or the value
+// of a field whose name says so (…Bits, BitLen, BitSize) — is divided by 8 (or
+// shifted right by 3) only after 7 was added. Sizes in this library need not
+// be multiples of 8 (RSA moduli >= 2048 bits of any length, P-521), so a floor
+// division yields a byte length that is one short for exactly those keys.
+func c03BitBytes(c *Ctx) {
+	p, r := c.P, c.R
+	isBitsName := func(n string) bool {
+		l := strings.ToLower(n)
+		return strings.HasSuffix(l, "bits") || l == "bitlen" || l == "bitsize" || strings.HasSuffix(l, "sizeinbits") || strings.HasSuffix(l, "bitlength")
+	}
+	// bitsValue: v is such a quantity, possibly converted; plus7 reports a dominating "+ 7"
+	var bitsValue func(v ssa.Value, depth int) (isBits, plus7 bool)
+	bitsValue = func(v ssa.Value, depth int) (bool, bool) {
+		if depth > 4 {
+			return false, false
+		}
+		v = guard.Strip(v)
+		switch x := v.(type) {
+		case *ssa.Convert:
+			return bitsValue(x.X, depth+1)
+		case *ssa.BinOp:
+			if x.Op == token.ADD {
+				for _, pr := range [][2]ssa.Value{{x.X, x.Y}, {x.Y, x.X}} {
+					if k, isK := guard.ConstInt(pr[1]); isK {
+						b, _ := bitsValue(pr[0], depth+1)
+						return b, b && k == 7
+					}
+				}
+			}
+			return false, false
+		case *ssa.Call:
+			if g := x.Call.StaticCallee(); g != nil && isBitsName(g.Name()) {
+				return true, false
+			}
+			if x.Call.IsInvoke() && isBitsName(x.Call.Method.Name()) {
+				return true, false
+			}
+		}
+		if _, fld, ok := guard.FieldOf(v); ok && isBitsName(fld) {
+			return true, false
+		}
+		return false, false
+	}
+	n := 0
+	for _, f := range p.SortedFuncs(core.Product) {
+		rel := core.Rel(core.PkgOf(f))
+		if strings.HasPrefix(rel, "internal/signature/mldsa") || strings.HasPrefix(rel, "internal/signature/slhdsa") {
+			continue // bit-packing arithmetic of the PQ schemes: C10/C16
+		}
+		allInstrs(f, func(ins ssa.Instruction) {
+			bo, ok := ins.(*ssa.BinOp)
+			if !ok {
+				return
+			}
+			k, isK := guard.ConstInt(bo.Y)
+			if !isK || !((bo.Op == token.QUO && k == 8) || (bo.Op == token.SHR && k == 3)) {
+				return
+			}
+			isBits, plus7 := bitsValue(bo.X, 0)
+			if !isBits {
+				return
+			}
+			n++
+			r.Check(plus7, "C03.bitbytes", fmt.Sprintf("C03.bitbytes/%s/%s", core.FuncID(f), valName(bo.X)), p.Pos(ins.Pos()),
+				"a bit count is turned into a byte count by floor division (bits/8): for sizes that are not a multiple of 8 (RSA moduli of 2049..2055 bits, P-521) the byte length is one short", "(bits+7)/8")
+		})
+	}
+	r.Counts["bits_to_bytes_sites"] = n
+	if n == 0 {
+		r.Ok("C03.bitbytes", "C03.bitbytes/none", "-", "no floor division of a bit count")
+	}
 }
